@@ -17,25 +17,29 @@ from . import c12
 PID = "C13"
 
 
+# what a failing observer raises: ordinary exceptions of several kinds (exporters time out, sockets fail, code has bugs)
+FAILURES = (RuntimeError, TimeoutError, OSError, KeyError, ValueError, AssertionError)
+
+
 class Faulty(EventProcessor):
     """Raises on the k-th delivery (k = None: on every event); optionally at shutdown."""
 
-    def __init__(self, k=None, every=False, at_shutdown=False):
-        self.k, self.every, self.at_shutdown, self.n = k, every, at_shutdown, 0
+    def __init__(self, k=None, every=False, at_shutdown=False, exc=RuntimeError):
+        self.k, self.every, self.at_shutdown, self.n, self.exc = k, every, at_shutdown, 0, exc
 
     def on_event(self, e):
         self.n += 1
         if self.every or self.n - 1 == self.k:
-            raise RuntimeError(f"observer failure at event {self.n - 1}")
+            raise self.exc(f"observer failure at event {self.n - 1}")
 
     def shutdown(self):
         if self.at_shutdown:
-            raise RuntimeError("observer failure at shutdown")
+            raise self.exc("observer failure at shutdown")
 
 
 class AsyncFaulty(AsyncEventProcessor):
-    def __init__(self, k=None, every=False, at_shutdown=False):
-        self.k, self.every, self.at_shutdown, self.n = k, every, at_shutdown, 0
+    def __init__(self, k=None, every=False, at_shutdown=False, exc=RuntimeError):
+        self.k, self.every, self.at_shutdown, self.n, self.exc = k, every, at_shutdown, 0, exc
 
     def on_event(self, e):
         self._hit()
@@ -47,11 +51,11 @@ class AsyncFaulty(AsyncEventProcessor):
     def _hit(self):
         self.n += 1
         if self.every or self.n - 1 == self.k:
-            raise RuntimeError(f"observer failure at event {self.n - 1}")
+            raise self.exc(f"observer failure at event {self.n - 1}")
 
     def shutdown(self):
         if self.at_shutdown:
-            raise RuntimeError("observer failure at shutdown")
+            raise self.exc("observer failure at shutdown")
 
     async def shutdown_async(self):
         await asyncio.sleep(0)
@@ -100,6 +104,13 @@ def run(tier, seed):
     thorough = tier == "thorough"
     model_check(ctx)
     progs = c12.programs(rng, 90 if thorough else 22)
+    # runs that PAUSE at an interrupt (top level and inside a nested graph): observers must not change that either
+    A = IR.func("A", ["x"], ["a"])
+    I = IR.interrupt("ask", ["a"], ["ans"], pause_at=[1])
+    B = IR.func("B", ["ans"], ["b"])
+    progs.append((IR.prog("top", [A, I, B]), [["x", "in.x"]], "pausing"))
+    inner = IR.prog("inner", [copy.deepcopy(I), copy.deepcopy(B)], max_iter=1000)
+    progs.append((IR.prog("top", [copy.deepcopy(A), IR.graph_node(inner, name="inner", inputs=["a"], outputs=["ans", "b"])]), [["x", "in.x"]], "pausing-nested"))
     streams = []
     n_faults = 0
     for prog, prov, kind in progs:
@@ -109,6 +120,8 @@ def run(tier, seed):
             if paths:
                 dict(IR.all_nodes(p2))[rng.choice(paths)]["fail_at"] = [1]
         for mode in ("sync", "async"):
+            if kind.startswith("pausing") and mode == "sync":
+                continue
             j = gen.job(0, sched.asyncify(p2) if mode == "async" and rng.random() < 0.5 else p2, prov, mode=mode)
             base, _, _ = predict.try_real(j)                       # no processors at all
             if "rejected" in base:
@@ -126,7 +139,7 @@ def run(tier, seed):
             for what, k in cases:
                 for fk in (("sync", "async") if mode == "async" else ("sync",)):
                     cls = AsyncFaulty if fk == "async" else Faulty
-                    bad = cls(k=k, every=(what == "every"), at_shutdown=(what == "shutdown"))
+                    bad = cls(k=k, every=(what == "every"), at_shutdown=(what == "shutdown"), exc=FAILURES[n_faults % len(FAILURES)])
                     healthy = events.AsyncRecorder(yields=rng.choice([1, 2, 3])) if (mode == "async" and rng.random() < 0.5) else events.Recorder()
                     first = rng.random() < 0.7
                     procs = [bad, healthy] if first else [healthy, bad]
@@ -154,7 +167,7 @@ def run(tier, seed):
                         ctx.violation("other-processor-stream-incomplete", wit,
                                       f"healthy processor received {len(healthy.events)} events, baseline {len(baseline)} (fault {what} {k}, faulty first={first})")
                         continue
-                    if rng.random() < 0.2:
+                    if rng.random() < 0.2 and o["status"] != "paused":      # the span-tree grammar is about TERMINATED runs (C12)
                         streams.append({"id": len(streams) + 1, "status": "failed" if o["status"] in ("failed", "raised") else o["status"],
                                         "events": healthy.events, "graphnodes": events.graph_node_names(j["prog"])})
     res, stats = events.validate_streams(streams)
@@ -167,7 +180,7 @@ def run(tier, seed):
     ctx.sample({"events_in_baseline": len(streams[0]["events"]) if streams else 0, "fault_kinds": ["at k (every k of the baseline stream)", "every event", "shutdown"]})
     ctx.assumptions += ["Observers.tla (best-effort dispatch) is model-checked for every fault set over (processor, position) incl. shutdown; two wrong dispatch designs must be caught",
                         "the baseline is the same run without any processor; invocation order of the harness bodies is part of the compared outcome"]
-    return ctx.finish(rule="fault enumeration: for each generated program (flat/nested/gated/cyclic, optionally with a failing node) and runner, EVERY event index of the baseline stream (capped at 14 in quick), failure on every event, failure at shutdown, sync and async faulty processors, faulty processor registered before or after a healthy one; distinct = structural hash of (program, provided, runner)")
+    return ctx.finish(rule="fault enumeration: for each generated program (flat/nested/gated/cyclic, optionally with a failing node) and runner, EVERY event index of the baseline stream (capped at 14 in quick), failure on every event, failure at shutdown, sync and async faulty processors raising several exception types (RuntimeError, TimeoutError, OSError, ...), faulty processor registered before or after a healthy one; programs that pause at an interrupt; distinct = structural hash of (program, provided, runner)")
 
 
 def replay(path):
